@@ -387,7 +387,7 @@ class Analyzer:
             mdep=src,
             kind=a.kind,
             fsrc=fs,
-            const=a.const if a.const is not None and all(c is None or isinstance(c, (str, bool)) for c in a.const) else None,
+            const=a.const if a.const is not None and all(c is None or isinstance(c, (str, bool)) for c in a.const) else (frozenset({("sym", i) if depth == 0 else ("sym", i, "elem")}) if depth < 2 else None),
             elem=elem,
             items=items,
             dmap=a.dmap,
@@ -928,6 +928,18 @@ class FuncInterp(ModelsMixin, CallModelsMixin):
         for k, old in list(st.heap.items()):
             if old.pts & tgt:
                 st.heap[k] = self._with_elem(old, v)
+
+    def taint_container(self, base: Val, dep, st: State):
+        """a mutating method call makes the container depend on the call's arguments"""
+        tgt = base.pts
+        if not tgt or not dep:
+            return
+        for name, old in list(st.env.items()):
+            if old.pts & tgt:
+                st.env[name] = old.add_dep(dep, EMPTY)
+        for k, old in list(st.heap.items()):
+            if old.pts & tgt:
+                st.heap[k] = old.add_dep(dep, EMPTY)
 
     def _with_elem(self, c: Val, v: Val) -> Val:
         # storing a sequence into a slice / row of an array stores its elements
@@ -1698,6 +1710,21 @@ class _Subst:
                     fs |= self.args[f[1]].all_fsrc()
             else:
                 fs.add(f)
+        const = v.const
+        if const is not None and any(isinstance(c, tuple) for c in const):
+            nc = set()
+            for c in const:
+                if isinstance(c, tuple) and c and c[0] == "sym":
+                    a = self.args[c[1]] if c[1] < len(self.args) else None
+                    if a is not None and len(c) == 3:
+                        a = a.iter_join()
+                    if a is None or a.const is None:
+                        nc = None
+                        break
+                    nc |= a.const
+                else:
+                    nc.add(c)
+            const = None if nc is None else frozenset(nc)
         r = Val(
             ty=v.ty,
             pts=pts,
@@ -1705,7 +1732,7 @@ class _Subst:
             mdep=mdep,
             kind=v.kind,
             fsrc=fs,
-            const=v.const,
+            const=const,
             elem=None if v.elem is None else self.val(v.elem, d + 1),
             items=None if v.items is None else tuple(self.val(i, d + 1) for i in v.items),
             dmap=None if v.dmap is None else tuple((kk, self.val(vv, d + 1)) for kk, vv in v.dmap),
